@@ -99,6 +99,7 @@ def prop_defaults(levels: tuple) -> dict[str, Any]:
 MI_SOURCE = '''
 from dataclasses import dataclass, field
 from models.zoo import VBase
+from pyoak.origin import NO_ORIGIN, Origin
 
 @dataclass(frozen=True)
 class MNamed{tag}(VBase):
@@ -143,6 +144,13 @@ class MQuoted{tag}(VBase):
     q: "int" = 0
     p: int = 1
 
+# a class that re-declares the built-in `origin` field (e.g. to give synthesized nodes a default
+# origin of their own) and one that re-declares it and adds a property after it
+@dataclass(frozen=True)
+class MOrigin{tag}(MNamed{tag}):
+    origin: Origin = field(default=NO_ORIGIN, kw_only=True)
+    tail: int = 3
+
 class _Ann{tag}:
     # a plain (non-dataclass) base that merely annotates names the node class declares later
     aname: int
@@ -166,6 +174,7 @@ MI_FIELDS = {
     "MOverride": [("name_kid", "co"), ("label", "pnc")],
     "MRich": [("extras", "ct"), ("note_kid", "co"), ("name_kid", "co"), ("label", "p")],
     "MQuoted": [("left", "co"), ("op", "co"), ("right", "ct"), ("extra", "ct"), ("q", "p"), ("p", "p")],
+    "MOrigin": [("name_kid", "co"), ("label", "p"), ("tail", "p")],
     "MAnnBase": [("aflag", "p"), ("ahead", "co"), ("aname", "p"), ("aitems", "ct"), ("atail", "co"), ("aweight", "p")],
 }
 
